@@ -71,6 +71,18 @@ template <typename T>
 bool BitEq(T a, T b) {
   return std::memcmp(&a, &b, sizeof(T)) == 0;
 }
+// Result equality: bitwise, except that two NaNs are equal whatever their sign / payload - which NaN an arithmetic
+// operation on two NaNs propagates depends on the operand order the compiler picks and is not specified (a clang -O1
+// libFuzzer build of this very harness disagreed with the g++ build on `NaN += -NaN`; false alarm, corrected).
+template <typename T>
+bool SameValue(T a, T b) {
+  if constexpr (std::is_floating_point_v<T>) {
+    if (std::isnan(a) && std::isnan(b)) {
+      return true;
+    }
+  }
+  return BitEq<T>(a, b);
+}
 
 int gArr[64];
 
@@ -363,13 +375,15 @@ void RunSeq(const Case& c, int mode, SeqResult& out) {
     if (out.err != nullptr) {
       break;
     }
-    if (compare_ret && (ba != bm || !BitEq<T>(ra, rm))) {
+    if (compare_ret && (ba != bm || !SameValue<T>(ra, rm))) {
       if (std::getenv("VF_DEBUG") != nullptr) {
         std::fprintf(stderr, "op=%d ba=%d bm=%d ra=%lld rm=%lld\n", op, ba, bm, (long long)(std::uintptr_t)ra, (long long)(std::uintptr_t)rm);
       }
       fail(static_cast<int>(i), "return value (or expected after compare_exchange) differs from std::atomic");
-    } else if (!BitEq<T>(a.load(), after)) {
+    } else if (!SameValue<T>(a.load(), after)) {
       fail(static_cast<int>(i), "stored value differs from std::atomic after the operation");
+    } else if (!BitEq<T>(a.load(), after)) {
+      a.store(after);  // both NaN with different payloads: re-synchronise so that later bitwise CAS steps stay comparable
     }
   }
 }
@@ -559,8 +573,16 @@ class AtomicFamily final : public vf::Family {
 
 }  // namespace
 
+#ifdef VF_FUZZ
+#  include "common/fuzz.hpp"
+extern "C" int LLVMFuzzerTestOneInput(const std::uint8_t* data, std::size_t size) {
+  static AtomicFamily fam;
+  return vf::FuzzOne(fam, vf::FuzzShape{3, 5, 48, 64}, data, size);
+}
+#else
 int main(int argc, char** argv) {
   AtomicFamily fam;
   vf::Driver d{{&fam}};
   return d.Main(argc, argv);
 }
+#endif
